@@ -126,13 +126,12 @@ Proof. unfold line_len. destruct (find_char 10 f) eqn:E; [apply find_char_lt in 
 Lemma frl_split n data rem : find_char 10 data = None -> blen data < n ->
   frl n (data ++ rem) = data ++ frl (n - blen data) rem /\ frl_rest n (data ++ rem) = frl_rest (n - blen data) rem.
 Proof.
-  intros Hn Hl. unfold frl, frl_rest, line_len. rewrite (find_char_app_none _ _ _ Hn).
-  destruct (find_char 10 rem) as [j|]; cbn [option_map].
-  - replace (N.min n (N.of_nat (S (length data + j)))) with (blen data + N.min (n - blen data) (N.of_nat (S j))) by (unfold blen in *; lia).
-    rewrite takeN_app_r, dropN_app_r by lia. split; repeat f_equal; lia.
-  - rewrite blen_app.
-    replace (N.min n (blen data + blen rem)) with (blen data + N.min (n - blen data) (blen rem)) by lia.
-    rewrite takeN_app_r, dropN_app_r by lia. split; repeat f_equal; lia.
+  intros Hn Hl. unfold frl, frl_rest.
+  assert (E : N.min n (line_len (data ++ rem)) = blen data + N.min (n - blen data) (line_len rem)).
+  { unfold line_len. rewrite (find_char_app_none _ _ _ Hn).
+    destruct (find_char 10 rem) as [j|]; cbn [option_map]; [|rewrite blen_app]; unfold blen in *; lia. }
+  rewrite E. set (M := N.min (n - blen data) (line_len rem)).
+  rewrite takeN_app_r, dropN_app_r by lia. replace (blen data + M - blen data) with M by lia. auto.
 Qed.
 
 Lemma takeN_firstn n l : N.of_nat n <= blen l -> takeN (N.of_nat n) l = firstn n l.
@@ -201,4 +200,82 @@ Proof.
     destruct (i_readline_loop_eof (i_fuel (rem, TEof a tr)) blk n buf [] rem a tr Hb ltac:(lia) ltac:(unfold i_fuel; cbn; lia))
       as (buf' & rem' & H1 & H2).
     rewrite H1. exists buf', rem'. auto.
+Qed.
+
+(* ---- every call of the input API, and whole programs ------------------------------------------ *)
+Lemma frl_nonempty f : f <> [] -> fst (file_readline None f) <> [].
+Proof.
+  intros Hf. unfold file_readline. cbn [fst getsize].
+  assert (0 < line_len f).
+  { unfold line_len. destruct (find_char 10 f); [lia|]. destruct f; [congruence|unfold blen; cbn; lia]. }
+  intros E. apply (f_equal blen) in E. rewrite blen_takeN in E. change (blen []) with 0 in E.
+  pose proof (line_len_le f). unfold maxsize in *. lia.
+Qed.
+
+Theorem i_do_call_is_file : forall cl buf rem a tr,
+    blen (buf ++ rem) <= maxsize ->          (* no body has 2^63 bytes *)
+    exists buf' rem',
+      do_call i_rd i_fuel cl (buf, (rem, TEof a tr)) = (fst (file_call cl (buf ++ rem)), (buf', (rem', TEof a tr)))
+      /\ buf' ++ rem' = snd (file_call cl (buf ++ rem)).
+Proof.
+  intros cl buf rem a tr Hsz. destruct cl as [s|s| |]; cbn [do_call file_call fst snd].
+  - destruct (i_read_is_file 1024 s buf rem a tr ltac:(lia)) as (b' & r' & H1 & H2).
+    unfold body_read. rewrite H1. exists b', r'. auto.
+  - destruct (i_readline_is_file 1024 s buf rem a tr ltac:(lia)) as (b' & r' & H1 & H2).
+    unfold body_readline. rewrite H1. exists b', r'. auto.
+  - destruct (i_read_is_file 1024 None buf rem a tr ltac:(lia)) as (b' & r' & H1 & H2).
+    unfold body_read. rewrite H1. exists b', r'. unfold file_read in *. cbn [fst snd getsize] in *.
+    rewrite takeN_all, dropN_all in * by exact Hsz. auto.
+  - destruct (i_readline_is_file 1024 None buf rem a tr ltac:(lia)) as (b' & r' & H1 & H2).
+    unfold body_readline. rewrite H1.
+    destruct (buf ++ rem) as [|x f] eqn:Ef.
+    + unfold file_readline in *. cbn [fst snd] in *. rewrite takeN_nil, dropN_nil in *.
+      exists b', r'. auto.
+    + pose proof (frl_nonempty (x :: f) ltac:(discriminate)) as Hne.
+      destruct (fst (file_readline None (x :: f))) as [|y l] eqn:El; [congruence|].
+      exists b', r'. auto.
+Qed.
+
+Lemma file_call_shrinks cl f : blen (snd (file_call cl f)) <= blen f.
+Proof.
+  destruct cl as [s|s| |]; cbn [file_call snd]; unfold file_read, file_readline; cbn [snd];
+    try (rewrite blen_dropN; lia); try (cbn; lia).
+  destruct f; [cbn; lia|]. cbn [snd]. rewrite blen_dropN. lia.
+Qed.
+
+Theorem i_run_calls_is_file : forall prog buf rem a tr,
+    blen (buf ++ rem) <= maxsize ->
+    exists buf' rem',
+      run_calls i_rd i_fuel prog (buf, (rem, TEof a tr)) = (fst (file_run prog (buf ++ rem)), (buf', (rem', TEof a tr)), None)
+      /\ buf' ++ rem' = snd (file_run prog (buf ++ rem)).
+Proof.
+  induction prog as [|cl t IH]; intros buf rem a tr Hsz; cbn [run_calls file_run].
+  - exists buf, rem. auto.
+  - destruct (i_do_call_is_file cl buf rem a tr Hsz) as (b1 & r1 & H1 & H2). rewrite H1.
+    destruct (file_call cl (buf ++ rem)) as [r f'] eqn:Ec. cbn [fst snd] in *.
+    assert (Hsz' : blen (b1 ++ r1) <= maxsize).
+    { rewrite H2. pose proof (file_call_shrinks cl (buf ++ rem)) as Hs. rewrite Ec in Hs. cbn [snd] in Hs. lia. }
+    destruct (IH b1 r1 a tr Hsz') as (b2 & r2 & H3 & H4). rewrite H2 in *.
+    destruct (file_run t f') as [o f''] eqn:Er. cbn [fst snd] in *.
+    assert (Hnoexc : match r with RExc _ => False | _ => True end).
+    { destruct cl as [s|s| |]; cbn [file_call] in Ec; try (injection Ec as <- _; exact I).
+      destruct (buf ++ rem); injection Ec as <- _; exact I. }
+    destruct r; try contradiction; rewrite H3; exists b2, r2; auto.
+Qed.
+
+(* ---- the drain of Parser.__next__ reads the file to its end ------------------------------------ *)
+Theorem i_drain_eof : forall fuel buf rem a tr,
+    (length (buf ++ rem) < fuel)%nat ->
+    drain i_rd i_fuel fuel (buf, (rem, TEof a tr)) = (([], ([], TEof a tr)), None).
+Proof.
+  induction fuel as [|fuel IH]; intros buf rem a tr Hf; [lia|]. cbn [drain].
+  destruct (i_read_is_file 1024 (Some 8192%Z) buf rem a tr ltac:(lia)) as (b' & r' & H1 & H2).
+  unfold body_read. rewrite H1. unfold file_read in *. cbn [fst snd getsize] in *.
+  change (if (8192 <? 0)%Z then maxsize else Z.to_N 8192) with 8192 in *.
+  destruct (takeN 8192 (buf ++ rem)) as [|x d] eqn:Ed.
+  - apply takeN_nil_iff in Ed; [|lia]. rewrite Ed, dropN_nil in H2.
+    apply app_eq_nil in H2 as [-> ->]. reflexivity.
+  - apply IH. rewrite H2.
+    assert (Hne : buf ++ rem <> []) by (intros E; rewrite E, takeN_nil in Ed; discriminate).
+    pose proof (length_dropN_lt 8192 (buf ++ rem) ltac:(lia) Hne). lia.
 Qed.
